@@ -110,25 +110,19 @@ Section SuggestProofs.
   Variable cmp : V -> V -> comparison.
   Variable dif : V -> V -> diff.
 
-  Lemma pick_some_cur : forall l cur vs nr, exists r, pick V cmp dif l (Some cur) vs nr = Some r.
-  Proof.
-    induction vs as [|v vs IH]; intros nr; cbn [pick]; [eauto|].
-    destruct (below_new V cmp v nr); [apply IH|].
-    destruct (allows l (dif v cur)); apply IH.
-  Qed.
-
-  (* every version picked passed the level check against the current version *)
+  (* every version picked passed the level check against the current version and is not below it *)
   Lemma pick_allowed : forall l cur vs nr v,
-    pick V cmp dif l (Some cur) vs nr = Some (Some v) ->
-    nr = Some v \/ (In v vs /\ allows l (dif v cur) = true).
+    pick V cmp dif l cur vs nr = Some v ->
+    nr = Some v \/ (In v vs /\ allows l (dif v cur) = true /\ is_lt (cmp v cur) = false).
   Proof.
     induction vs as [|v0 vs IH]; intros nr v H; cbn [pick] in H.
-    - left. congruence.
-    - destruct (below_new V cmp v0 nr).
+    - left. exact H.
+    - destruct (below_new V cmp v0 nr || is_lt (cmp v0 cur)) eqn:EB.
       + destruct (IH _ _ H) as [E|[I A]]; [left; exact E|right; split; [right; exact I|exact A]].
-      + destruct (allows l (dif v0 cur)) eqn:EA.
+      + apply orb_false_iff in EB as [_ EC].
+        destruct (allows l (dif v0 cur)) eqn:EA.
         * destruct (IH _ _ H) as [E|[I A]].
-          -- inversion E; subst. right. split; [left; reflexivity|exact EA].
+          -- inversion E; subst. right. split; [left; reflexivity|]. split; [exact EA|exact EC].
           -- right; split; [right; exact I|exact A].
         * destruct (IH _ _ H) as [E|[I A]]; [left; exact E|right; split; [right; exact I|exact A]].
   Qed.
@@ -136,103 +130,58 @@ Section SuggestProofs.
   Lemma semvers_In : forall vs v, In v (semvers V parses vs) <-> In v vs /\ parses v = true.
   Proof. intros vs v. unfold semvers. apply filter_In. Qed.
 
+  (* what a changed requirement looks like *)
+  Lemma suggest_new_inv : forall verr l c vs v,
+    suggest_maven_version V parses cmp dif verr l c vs = SNew v ->
+    exists cur, current_of V parses cmp c vs = Some cur /\ allows l (dif v cur) = true /\
+                is_lt (cmp v cur) = false /\ In v vs /\ parses v = true.
+  Proof.
+    intros verr l c vs v H. unfold suggest_maven_version in H.
+    destruct verr; [discriminate|].
+    destruct c as [|[cur|]|m]; try discriminate.
+    - destruct (pick V cmp dif l cur (semvers V parses vs) None) as [w|] eqn:EP; [|discriminate].
+      inversion H; subst. exists cur. split; [reflexivity|].
+      destruct (pick_allowed _ _ _ _ _ EP) as [E|[I [A B]]]; [discriminate|].
+      apply semvers_In in I. tauto.
+    - cbn [current_of].
+      destruct (guess_current V cmp m (semvers V parses vs) None) as [cur|] eqn:EG; [|discriminate].
+      destruct (pick V cmp dif l cur (semvers V parses vs) None) as [w|] eqn:EP; [|discriminate].
+      destruct (m w); [discriminate|]. inversion H; subst. exists cur. split; [reflexivity|].
+      destruct (pick_allowed _ _ _ _ _ EP) as [E|[I [A B]]]; [discriminate|].
+      apply semvers_In in I. tauto.
+  Qed.
+
   Lemma suggest_within_level_lemma : forall verr l c vs v,
     suggest_maven_version V parses cmp dif verr l c vs = SNew v ->
     exists cur, current_of V parses cmp c vs = Some cur /\ allows l (dif v cur) = true /\
                 In v vs /\ parses v = true.
   Proof.
-    intros verr l c vs v H. unfold suggest_maven_version in H.
-    destruct verr; [discriminate|].
-    destruct c as [|[cur|]|m]; try discriminate.
-    - destruct (pick V cmp dif l (Some cur) (semvers V parses vs) None) as [[w|]|] eqn:EP; try discriminate.
-      inversion H; subst. exists cur. split; [reflexivity|].
-      destruct (pick_allowed _ _ _ _ _ EP) as [E|[I A]]; [discriminate|].
-      apply semvers_In in I. tauto.
-    - cbn [current_of].
-      destruct (guess_current V cmp m (semvers V parses vs) None) as [cur|] eqn:EG.
-      + destruct (pick V cmp dif l (Some cur) (semvers V parses vs) None) as [[w|]|] eqn:EP; try discriminate.
-        destruct (m w); [discriminate|]. inversion H; subst. exists cur. split; [reflexivity|].
-        destruct (pick_allowed _ _ _ _ _ EP) as [E|[I A]]; [discriminate|].
-        apply semvers_In in I. tauto.
-      + destruct (semvers V parses vs) as [|v0 vs0]; cbn [pick] in H; [discriminate|].
-        cbn [below_new] in H. discriminate.
+    intros verr l c vs v H. destruct (suggest_new_inv _ _ _ _ _ H) as [cur [A [B [_ [C D]]]]].
+    exists cur. auto.
   Qed.
 
-  (* ---- order facts *)
-  Hypothesis cmp_refl : forall a, cmp a a = Eq.
-  Hypothesis cmp_le_trans : forall a b c, cmp a b <> Gt -> cmp b c <> Gt -> cmp a c <> Gt.
-  Hypothesis cmp_antisym : forall a b, cmp b a = CompOpp (cmp a b).
-  Hypothesis dif_refl : forall a, dif a a = Same.
-
-  Lemma pick_not_below : forall l cur vs nr v,
-    pick V cmp dif l (Some cur) vs nr = Some (Some v) ->
-    (In cur vs \/ exists n, nr = Some n /\ cmp cur n <> Gt) ->
-    cmp cur v <> Gt.
-  Proof.
-    induction vs as [|v0 vs IH]; intros nr v H Hinv; cbn [pick] in H.
-    - destruct Hinv as [[]|[n [E Hn]]]. inversion H; subst. inversion H1; subst. exact Hn.
-    - destruct (below_new V cmp v0 nr) eqn:EB.
-      + apply (IH _ _ H).
-        destruct Hinv as [[E|I]|Hn]; [|left; exact I|right; exact Hn].
-        subst v0. right. unfold below_new in EB. destruct nr as [n|]; [|discriminate].
-        exists n. split; [reflexivity|]. destruct (cmp cur n); simpl in EB; congruence.
-      + assert (Hge : forall n, nr = Some n -> cmp n v0 <> Gt).
-        { intros n E. subst nr. unfold below_new in EB. rewrite (cmp_antisym v0 n).
-          destruct (cmp v0 n); simpl in *; congruence. }
-        destruct Hinv as [[E|I]|[n [E Hn]]].
-        * subst v0. rewrite dif_refl, allows_same in H. apply (IH _ _ H). right.
-          exists cur. split; [reflexivity|]. rewrite cmp_refl. discriminate.
-        * destruct (allows l (dif v0 cur)); apply (IH _ _ H); left; exact I.
-        * destruct (allows l (dif v0 cur)).
-          -- apply (IH _ _ H). right. exists v0. split; [reflexivity|].
-             apply cmp_le_trans with n; [exact Hn|apply Hge; exact E].
-          -- apply (IH _ _ H). right. exists n. split; [exact E|exact Hn].
-  Qed.
-
-  Lemma pick_not_none : forall l cur vs nr,
-    (In cur vs \/ nr <> None) -> pick V cmp dif l (Some cur) vs nr <> Some None.
-  Proof.
-    induction vs as [|v0 vs IH]; intros nr Hinv; cbn [pick].
-    - destruct Hinv as [[]|Hn]. congruence.
-    - destruct (below_new V cmp v0 nr) eqn:EB.
-      + apply IH. destruct Hinv as [[E|I]|Hn]; [|left; exact I|right; exact Hn].
-        right. unfold below_new in EB. destruct nr; [discriminate|discriminate].
-      + destruct Hinv as [[E|I]|Hn].
-        * subst v0. rewrite dif_refl, allows_same. apply IH. right. discriminate.
-        * destruct (allows l (dif v0 cur)); apply IH; left; exact I.
-        * destruct (allows l (dif v0 cur)); apply IH; right; [discriminate|exact Hn].
-  Qed.
-
-  Lemma suggest_not_downgrade_lemma : forall verr l c vs cur v,
-    current_of V parses cmp c vs = Some cur -> In cur vs -> parses cur = true ->
+  Lemma suggest_not_downgrade_lemma :
+    (forall a b, cmp b a = CompOpp (cmp a b)) ->
+    forall verr l c vs cur v,
+    current_of V parses cmp c vs = Some cur ->
     suggest_maven_version V parses cmp dif verr l c vs = SNew v -> cmp cur v <> Gt.
   Proof.
-    intros verr l c vs cur v HC HI HP H. unfold suggest_maven_version in H.
-    destruct verr; [discriminate|].
-    assert (HS : In cur (semvers V parses vs)) by (apply semvers_In; tauto).
-    destruct c as [|[cur'|]|m]; try discriminate; cbn [current_of] in HC.
-    - inversion HC; subst cur'.
-      destruct (pick V cmp dif l (Some cur) (semvers V parses vs) None) as [[w|]|] eqn:EP; try discriminate.
-      inversion H; subst. eapply pick_not_below; [exact EP|left; exact HS].
-    - rewrite HC in H.
-      destruct (pick V cmp dif l (Some cur) (semvers V parses vs) None) as [[w|]|] eqn:EP; try discriminate.
-      destruct (m w); [discriminate|]. inversion H; subst. eapply pick_not_below; [exact EP|left; exact HS].
+    intros Hanti verr l c vs cur v HC H.
+    destruct (suggest_new_inv _ _ _ _ _ H) as [cur' [A [_ [B _]]]].
+    rewrite HC in A. inversion A; subst cur'.
+    rewrite (Hanti v cur). destruct (cmp v cur); simpl in *; congruence.
   Qed.
 
-  Lemma suggest_no_panic_lemma : forall verr l c vs cur,
-    current_of V parses cmp c vs = Some cur -> In cur vs -> parses cur = true ->
+  Lemma suggest_no_panic_lemma : forall verr l c vs,
     suggest_maven_version V parses cmp dif verr l c vs <> SPanic.
   Proof.
-    intros verr l c vs cur HC HI HP. unfold suggest_maven_version.
+    intros verr l c vs. unfold suggest_maven_version.
     destruct verr; [discriminate|].
-    assert (HS : In cur (semvers V parses vs)) by (apply semvers_In; tauto).
-    destruct c as [|[cur'|]|m]; try discriminate; cbn [current_of] in HC.
-    - inversion HC; subst cur'.
-      destruct (pick_some_cur l cur (semvers V parses vs) None) as [r Er]. rewrite Er.
-      destruct r as [w|]; [discriminate|]. exfalso. eapply pick_not_none; [left; exact HS|exact Er].
-    - rewrite HC.
-      destruct (pick_some_cur l cur (semvers V parses vs) None) as [r Er]. rewrite Er.
-      destruct r as [w|]; [destruct (m w); discriminate|]. exfalso. eapply pick_not_none; [left; exact HS|exact Er].
+    destruct c as [|[cur|]|m]; try discriminate.
+    - destruct (pick V cmp dif l cur (semvers V parses vs) None); discriminate.
+    - destruct (guess_current V cmp m (semvers V parses vs) None) as [cur|]; [|discriminate].
+      destruct (pick V cmp dif l cur (semvers V parses vs) None) as [w|]; [|discriminate].
+      destruct (m w); discriminate.
   Qed.
 End SuggestProofs.
 
@@ -356,7 +305,7 @@ Section RelaxProofs.
       In best (nx :: ab) /\
       allows l (dov lst nx) = true /\
       allows l (dov lst best) = true /\
-      (op = Tilde -> dov lst nx = DiffPatch).
+      (op = Caret -> Z.ltb (diff_code (dov lst nx)) 4 = true).
   Proof.
     intros l c_ok verr vers op best H. unfold relax_npm in H.
     destruct (level_eqb l LNone) eqn:EL; [discriminate|].
@@ -373,14 +322,14 @@ Section RelaxProofs.
     - (* one major step: level must be major *)
       apply diff_eqb_eq in EM. rewrite EM in EA. apply allows_diffmajor_inv in EA. subst l.
       cbn [diff_eqb] in H. inversion H; subst.
-      split; [|split; [apply allows_major_all|split; [apply allows_major_all|discriminate]]].
+      split; [|split; [apply allows_major_all|split; [apply allows_major_all|intros _; rewrite EM; reflexivity]]].
       destruct (best_loop_cases Major nx DiffMinor np' ab nx _ eq_refl) as [E|[I _]]; [rewrite E; left; reflexivity|right; exact I].
     - assert (EB : bloop l lst (dov lst nx) np' ab nx = best /\
-                   op = (if diff_eqb (dov lst nx) DiffPatch then Tilde else Caret)) by (inversion H; auto).
+                   op = (if Z.leb (diff_code DiffPatch) (diff_code (dov lst nx)) then Tilde else Caret)) by (inversion H; auto).
       destruct EB as [EB EO]. clear H.
-      assert (HT : op = Tilde -> dov lst nx = DiffPatch).
-      { intros HT. rewrite HT in EO.
-        destruct (diff_eqb (dov lst nx) DiffPatch) eqn:EP; [apply diff_eqb_eq; exact EP|discriminate]. }
+      assert (HT : op = Caret -> Z.ltb (diff_code (dov lst nx)) 4 = true).
+      { intros HT. rewrite HT in EO. change (diff_code DiffPatch) with 4%Z in EO.
+        destruct (Z.leb_spec 4 (diff_code (dov lst nx))); [discriminate|]. apply Z.ltb_lt. assumption. }
       destruct (best_loop_cases l lst (dov lst nx) np' ab nx best EB) as [E|[I [d [Ed Ad]]]].
       + rewrite E. split; [left; reflexivity|]. split; [exact EA|]. split; [exact EA|exact HT].
       + split; [right; exact I|]. split; [exact EA|]. split; [|exact HT].
@@ -423,27 +372,63 @@ Section RelaxProofs.
   Variable comp : V -> comps.
   Hypothesis diff_first_component : forall a b, first_component_diffb (comp a) (comp b) (dov a b) = true.
 
-  Lemma relax_range_on_dom_lemma : forall l c_ok verr vers op best,
+  Hypothesis diff_classified : forall a b, cmp a b = Lt -> classified (dov a b) = true.
+
+  Lemma relax_range_lemma : forall l c_ok verr vers op best,
+    ssorted cmp vers = true ->
     relax_npm V parses matches is_pre dif l c_ok verr vers = Some (op, best) ->
-    relax_range_dom l op = true ->
+    valid_level l = true ->
     exists lst, highest_match V parses matches vers = Some lst /\
       forall v, range_admits V dif cmp op best v = true -> allows l (dov lst v) = true.
   Proof.
-    intros l c_ok verr vers op best H HD.
-    destruct (relax_some_inv _ _ _ _ _ _ H) as [_ [lst [nx [ab [pre [mid [HH [_ [_ [_ [A _]]]]]]]]]]].
+    intros l c_ok verr vers op best HS H HD.
+    destruct (relax_some_inv _ _ _ _ _ _ H) as [_ [lst [nx [ab [pre [mid [HH [EV [_ [AN [A HC]]]]]]]]]]].
     exists lst. split; [exact HH|]. intros v HR.
     apply (allows_compose_lemma V dov comp diff_first_component l lst best v A).
     unfold range_admits in HR. apply andb_true_iff in HR as [_ HR].
-    destruct l; cbn [relax_range_dom] in HD; try discriminate.
+    destruct l; cbn [valid_level] in HD; try discriminate.
     - apply allows_major_all.
     - destruct op; [apply andb_true_iff in HR as [HR _]|];
         destruct (dov best v); cbv in HR |- *; congruence.
-    - destruct op; [|discriminate]. apply andb_true_iff in HR as [H1 H2].
-      destruct (dov best v); cbv in H1, H2 |- *; congruence.
+    - destruct op.
+      + apply andb_true_iff in HR as [H1 H2].
+        destruct (dov best v); cbv in H1, H2 |- *; congruence.
+      + (* a caret range under level patch would need an unclassified step lst -> nx *)
+        exfalso. specialize (HC eq_refl).
+        assert (L : ltb cmp lst nx = true).
+        { rewrite EV in HS. eapply ssorted_app_after; [exact HS|]. apply in_or_app. right. left. reflexivity. }
+        assert (C : classified (dov lst nx) = true).
+        { apply diff_classified. unfold ltb in L. destruct (cmp lst nx); congruence. }
+        destruct (dov lst nx); cbv in AN, HC, C; congruence.
   Qed.
 End RelaxProofs.
 
 (* ======================================================================= Override: getVersionsGreater *)
+(* elements of the sorted list, for any comparator *)
+Lemma ins_back_elems : forall c x rp z, In z (ins_back c x rp) <-> z = x \/ In z rp.
+Proof.
+  intros c x. induction rp as [|y rp IH]; intros z; cbn [ins_back].
+  - simpl. intuition congruence.
+  - destruct (is_lt (c x y)); simpl; [rewrite IH|]; intuition congruence.
+Qed.
+
+Lemma fold_ins_elems : forall c l rp z,
+  In z (fold_left (fun rp x => ins_back c x rp) l rp) <-> In z l \/ In z rp.
+Proof.
+  intros c. induction l as [|x l IH]; intros rp z; cbn [fold_left].
+  - simpl. intuition.
+  - rewrite IH, ins_back_elems. simpl. intuition congruence.
+Qed.
+
+Lemma gvg_subset : forall rank vs vk w, In w (get_versions_greater rank vs vk) -> In w vs.
+Proof.
+  intros rank vs vk w H. unfold get_versions_greater in H.
+  match type of H with In _ (skipn ?n ?l) => assert (Hs : In w l) by (rewrite <- (firstn_skipn n l); apply in_or_app; right; exact H) end.
+  unfold sorted_versions in Hs. destruct (is_sorted (cmpf rank vs) vs); [exact Hs|].
+  unfold go_sort in Hs. apply in_rev in Hs. apply fold_ins_elems in Hs. destruct Hs as [Hs|[]]. exact Hs.
+Qed.
+
+
 Section GvgProofs.
   Variable rank : ver -> option Z.
   Definition rk (v : ver) : Z := match rank v with Some r => r | None => 0%Z end.
@@ -643,6 +628,7 @@ Section OverrideProofs.
 
   Notation gvg := (get_versions_greater rank).
   Notation pgroup := (patch_group versions_of rank dif affected cfg).
+  Notation pgroups := (patch_groups versions_of rank dif affected cfg).
   Notation iter := (iteration versions_of rank dif affected analyse cfg vuln_ids).
   Notation pvulns := (patch_vulns versions_of rank dif affected analyse cfg vuln_ids).
 
@@ -704,20 +690,54 @@ Section OverrideProofs.
         split; [right; exact I|]. split; [exact A|exact Lt].
   Qed.
 
-  Lemma patch_group_inv : forall g q, pgroup g = Some q ->
+  Lemma patch_group_inv : forall iss g q, pgroup iss g = Some q ->
     fst (fst q) = g_pkg g /\ snd (fst q) = g_ver g /\
     config_get cfg (g_pkg g) <> LNone /\
     allows (config_get cfg (g_pkg g)) (dif (g_ver g) (snd q)) = true /\
-    In (snd q) (gvg (versions_of (g_pkg g)) (g_ver g)).
+    In (snd q) (gvg (versions_of (g_pkg g)) (g_ver g)) /\
+    ~ In (to_override q) iss.
   Proof.
-    intros g q H. unfold patch_group in H.
+    intros iss g q H. unfold patch_group in H.
     destruct (level_eqb (config_get cfg (g_pkg g)) LNone) eqn:EL; [discriminate|].
     destruct (choose_best versions_of rank dif affected cfg g) as [best n] eqn:EC.
+    destruct (existsb (pair_eqb (g_pkg g, best)) iss) eqn:EX; [discriminate|].
     destruct (Nat.ltb n (length (g_vulns g))) eqn:EN; [|discriminate].
     inversion H; subst. simpl. apply Nat.ltb_lt in EN.
     unfold choose_best in EC.
     destruct (scan_best_cases _ _ _ _ _ _ _ _ _ EC) as [[E1 E2]|[I [A _]]]; [lia|].
-    repeat split; auto. intros E. rewrite E in EL. discriminate.
+    repeat split; auto.
+    - intros E. rewrite E in EL. discriminate.
+    - intros Hin. unfold to_override in Hin. simpl in Hin.
+      assert (existsb (pair_eqb (g_pkg g, best)) iss = true).
+      { apply existsb_exists. exists (g_pkg g, best). split; [exact Hin|]. unfold pair_eqb. simpl. rewrite !N.eqb_refl. reflexivity. }
+      congruence.
+  Qed.
+
+  (* the pass over the groups: every patch comes from a group, with some superset of the issued set *)
+  Lemma patch_groups_In : forall gs iss q, In q (pgroups iss gs) ->
+    exists g iss', In g gs /\ pgroup iss' g = Some q /\ incl iss iss'.
+  Proof.
+    induction gs as [|g gs IH]; intros iss q H; cbn [patch_groups] in H; [destruct H|].
+    destruct (pgroup iss g) as [q0|] eqn:E.
+    - destruct H as [<-|H].
+      + exists g, iss. split; [left; reflexivity|]. split; [exact E|apply incl_refl].
+      + destruct (IH _ _ H) as [g' [iss' [I1 [I2 I3]]]]. exists g', iss'. split; [right; exact I1|]. split; [exact I2|].
+        intros x Hx. apply I3. right. exact Hx.
+    - destruct (IH _ _ H) as [g' [iss' [I1 [I2 I3]]]]. exists g', iss'. split; [right; exact I1|]. split; [exact I2|exact I3].
+  Qed.
+
+  (* nothing is requested twice *)
+  Lemma patch_groups_fresh : forall gs iss,
+    NoDup (map to_override (pgroups iss gs)) /\ forall q, In q (pgroups iss gs) -> ~ In (to_override q) iss.
+  Proof.
+    induction gs as [|g gs IH]; intros iss; cbn [patch_groups]; [split; [constructor|intros q []]|].
+    destruct (pgroup iss g) as [q0|] eqn:E; [|apply IH].
+    destruct (IH (to_override q0 :: iss)) as [N1 N2]. split.
+    - cbn [map]. constructor; [|exact N1]. intros Hin. apply in_map_iff in Hin as [q' [Eq Hq']].
+      apply (N2 q' Hq'). left. symmetry. exact Eq.
+    - intros q [<-|Hq].
+      + destruct (patch_group_inv _ _ _ E) as [_ [_ [_ [_ [_ F]]]]]. exact F.
+      + intros Hin. apply (N2 q Hq). right. exact Hin.
   Qed.
 
   (* ---- vkVulns *)
@@ -786,24 +806,10 @@ Section OverrideProofs.
         exists rv', c. split; [right; exact I1|exact I2].
   Qed.
 
-  Lemma filter_some_In : forall {A B} (f : A -> option B) l b,
-    In b (filter_some f l) <-> exists a, In a l /\ f a = Some b.
-  Proof.
-    intros A B f. induction l as [|a l IH]; intros b; cbn [filter_some].
-    - split; [intros []|intros [a [[] _]]].
-    - destruct (f a) eqn:E.
-      + simpl. rewrite IH. split.
-        * intros [<-|[a' [I F]]]; [exists a; split; [left; reflexivity|exact E]|exists a'; split; [right; exact I|exact F]].
-        * intros [a' [[<-|I] F]]; [left; congruence|right; exists a'; auto].
-      + rewrite IH. split.
-        * intros [a' [I F]]. exists a'; split; [right; exact I|exact F].
-        * intros [a' [[<-|I] F]]; [congruence|exists a'; auto].
-  Qed.
-
   (* what one pass of the loop issues *)
   Lemma iteration_inv : forall ovs ps, iter ovs = Some ps ->
     exists vulns gs, analyse ovs = Some vulns /\ groups_of vuln_ids [] vulns = Some gs /\
-      ps = filter_some pgroup gs /\ NoDup (map gkey gs) /\
+      ps = pgroups ovs gs /\ NoDup (map gkey gs) /\
       (forall g, In g gs -> exists rv cl, In rv vulns /\ In (g_pkg g, g_ver g, cl) (rv_nodes rv)).
   Proof.
     intros ovs ps H. unfold iteration in H.
@@ -842,7 +848,7 @@ Section OverrideProofs.
     refine (patch_vulns_forall (fun q => config_get cfg (p_pkg q) <> LNone /\
              allows (config_get cfg (p_pkg q)) (dif (p_from q) (p_to q)) = true) _ fuel [] [] _ q Hq).
     - intros ovs ps HI q' Hq'. destruct (iteration_inv _ _ HI) as [vulns [gs [_ [_ [E _]]]]]. subst ps.
-      apply filter_some_In in Hq' as [g [Hg F]]. destruct (patch_group_inv _ _ F) as [E1 [E2 [N [A _]]]].
+      apply patch_groups_In in Hq' as [g [iss' [Hg [F _]]]]. destruct (patch_group_inv _ _ _ F) as [E1 [E2 [N [A _]]]].
       unfold p_pkg, p_from, p_to. rewrite E1, E2. auto.
     - intros it [].
   Qed.
@@ -858,7 +864,7 @@ Section OverrideProofs.
     exists vulns rv cl, analyse ovs = Some vulns /\ In rv vulns /\ In (p_pkg q, p_from q, cl) (rv_nodes rv).
   Proof.
     intros ovs ps q HI Hq. destruct (iteration_inv _ _ HI) as [vulns [gs [EA [_ [E [_ Hn]]]]]]. subst ps.
-    apply filter_some_In in Hq as [g [Hg F]]. destruct (patch_group_inv _ _ F) as [E1 [E2 [_ [_ I]]]].
+    apply patch_groups_In in Hq as [g [iss' [Hg [F _]]]]. destruct (patch_group_inv _ _ _ F) as [E1 [E2 [_ [_ [I _]]]]].
     destruct (Hn g Hg) as [rv [c [I1 I2]]].
     assert (Hl : In (g_ver g) (versions_of (g_pkg g))) by (eapply H_listed; eauto).
     destruct (gvg_greater _ _ (H_wf (g_pkg g)) Hl _ I) as [G1 G2].
@@ -956,30 +962,30 @@ Section OverrideProofs.
     - apply IH; [exact Hnd'|]. intros a b Ha Hb. apply Hone; right; assumption.
   Qed.
 
-  Lemma filter_some_pkgs : forall gs,
-    NoDup (map g_pkg gs) -> NoDup (map p_pkg (filter_some pgroup gs)).
+  Lemma patch_groups_pkgs : forall gs iss,
+    NoDup (map g_pkg gs) -> NoDup (map p_pkg (pgroups iss gs)).
   Proof.
-    induction gs as [|g gs IH]; intros Hnd; cbn [filter_some map]; [constructor|].
+    induction gs as [|g gs IH]; intros iss Hnd; cbn [patch_groups map]; [constructor|].
     cbn [map] in Hnd. inversion Hnd as [|? ? Hn Hnd']; subst.
-    destruct (pgroup g) as [q|] eqn:E; [|apply IH; exact Hnd'].
+    destruct (pgroup iss g) as [q|] eqn:E; [|apply IH; exact Hnd'].
     cbn [map]. constructor; [|apply IH; exact Hnd'].
-    intros Hin. apply in_map_iff in Hin as [q' [E' Hq']]. apply filter_some_In in Hq' as [g' [Hg' F]].
+    intros Hin. apply in_map_iff in Hin as [q' [E' Hq']]. apply patch_groups_In in Hq' as [g' [iss' [Hg' [F _]]]].
     apply Hn. apply in_map_iff. exists g'. split; [|exact Hg'].
-    destruct (patch_group_inv _ _ F) as [A _]. destruct (patch_group_inv _ _ E) as [B _].
+    destruct (patch_group_inv _ _ _ F) as [A _]. destruct (patch_group_inv _ _ _ E) as [B _].
     unfold p_pkg in E'. congruence.
   Qed.
 
   Lemma iteration_distinct : forall ovs ps, iter ovs = Some ps -> NoDup (map p_pkg ps).
   Proof.
     intros ovs ps HI. destruct (iteration_inv _ _ HI) as [vulns [gs [EA [_ [E [Hnd Hn]]]]]]. subst ps.
-    apply filter_some_pkgs. apply groups_distinct_pkgs; [exact Hnd|].
+    apply patch_groups_pkgs. apply groups_distinct_pkgs; [exact Hnd|].
     intros g g' Hg Hg' Ep. destruct (Hn g Hg) as [rv [c [I1 I2]]]. destruct (Hn g' Hg') as [rv' [c' [J1 J2]]].
     rewrite <- Ep in J2. exact (H_one ovs vulns rv rv' (g_pkg g) (g_ver g) (g_ver g') c c' EA I1 J1 I2 J2).
   Qed.
 
+  (* every override requested is a fresh (package, listed version) pair *)
   Definition ov_inv (ovs : list (pkg * ver)) : Prop :=
-    NoDup ovs /\ incl ovs (all_pairs versions_of pkgs) /\
-    forall p w, In (p, w) ovs -> exists t, last_override ovs p = Some t /\ (rk rank w <= rk rank t)%Z.
+    NoDup ovs /\ incl ovs (all_pairs versions_of pkgs).
 
   Lemma rank_lt_rk : forall a b, rank_lt rank a b = true -> (rk rank a < rk rank b)%Z.
   Proof.
@@ -995,42 +1001,20 @@ Section OverrideProofs.
   Lemma ov_inv_step : forall ovs ps, ov_inv ovs -> iter ovs = Some ps ->
     ov_inv (ovs ++ map to_override ps).
   Proof.
-    intros ovs ps [I1 [I2 I3]] HI.
-    pose proof (iteration_distinct _ _ HI) as Hd.
-    assert (Hfst : map fst (map to_override ps) = map p_pkg ps).
-    { rewrite map_map. apply map_ext. intros [[p f] t]. reflexivity. }
-    assert (Hq : forall p t, In (p, t) (map to_override ps) ->
-              exists q, In q ps /\ p_pkg q = p /\ p_to q = t).
-    { intros p t H. apply in_map_iff in H as [[[p' f] t'] [E Hq]]. unfold to_override in E. simpl in E.
-      inversion E; subst. exists (p, f, t). auto. }
-    (* a new override lies strictly above everything issued before for that package *)
-    assert (Hnew : forall p t, In (p, t) (map to_override ps) ->
-              In (p, t) (all_pairs versions_of pkgs) /\
-              forall w, In (p, w) ovs -> (rk rank w < rk rank t)%Z).
-    { intros p t H. destruct (Hq p t H) as [q [Hq1 [E1 E2]]].
-      destruct (iteration_patch _ _ _ HI Hq1) as [_ [A [B [vulns [rv [c [EA [R1 R2]]]]]]]].
-      rewrite E1 in *. rewrite E2 in *. split.
-      - apply all_pairs_In; [eapply H_pkgs; eauto|exact A].
-      - intros w Hw. destruct (I3 p w Hw) as [t0 [L0 Le]].
-        assert (p_from q = t0) by (eapply H_res; eauto). subst t0.
-        apply rank_lt_rk in B. lia. }
-    split; [|split].
-    - apply NoDup_app_intro; [exact I1| |].
-      + apply NoDup_map_fst. rewrite Hfst. exact Hd.
-      + intros [p t] Hin Hov. destruct (Hnew p t Hin) as [_ Hlt]. specialize (Hlt t Hov). lia.
+    intros ovs ps [I1 I2] HI.
+    destruct (iteration_inv _ _ HI) as [vulns [gs [EA [_ [E [_ Hn]]]]]]. subst ps.
+    destruct (patch_groups_fresh gs ovs) as [F1 F2].
+    split.
+    - apply NoDup_app_intro; [exact I1|exact F1|].
+      intros x Hx Hov. apply in_map_iff in Hx as [q [Eq Hq]]. subst x. exact (F2 q Hq Hov).
     - intros x Hx. apply in_app_or in Hx. destruct Hx as [Hx|Hx]; [apply I2; exact Hx|].
-      destruct x as [p t]. apply (Hnew p t Hx).
-    - intros p w Hin. rewrite last_override_app.
-      destruct (last_override (map to_override ps) p) as [t'|] eqn:EL.
-      + exists t'. split; [reflexivity|].
-        assert (Hin' : In (p, t') (map to_override ps)) by (apply last_override_In; exact EL).
-        apply in_app_or in Hin. destruct Hin as [Hin|Hin].
-        * destruct (Hnew p t' Hin') as [_ Hlt]. specialize (Hlt w Hin). lia.
-        * assert (w = t').
-          { eapply last_override_unique; [|exact EL|exact Hin]. rewrite Hfst. exact Hd. }
-          subst. lia.
-      + apply in_app_or in Hin. destruct Hin as [Hin|Hin]; [apply I3; exact Hin|].
-        exfalso. eapply last_override_None; eauto.
+      apply in_map_iff in Hx as [q [Eq Hq]]. subst x.
+      apply patch_groups_In in Hq as [g [iss' [Hg [F _]]]].
+      destruct (patch_group_inv _ _ _ F) as [E1 [_ [_ [_ [I _]]]]].
+      destruct (Hn g Hg) as [rv [c [R1 R2]]].
+      unfold to_override. rewrite E1. apply all_pairs_In.
+      + eapply H_pkgs; eauto.
+      + eapply gvg_subset. exact I.
   Qed.
 
   Lemma all_pairs_length : forall l, length (all_pairs versions_of l) = fold_right (fun p n => length (versions_of p) + n) 0 l.
@@ -1047,7 +1031,7 @@ Section OverrideProofs.
     cbn [patch_vulns]. destruct (iter ovs) as [[|p ps]|] eqn:EI; try discriminate.
     pose proof (ov_inv_step _ _ Hinv EI) as Hinv'.
     apply IH; [exact Hinv'|].
-    destruct Hinv' as [N1 [N2 _]].
+    destruct Hinv' as [N1 N2].
     pose proof (NoDup_incl_length N1 N2) as Hle.
     rewrite app_length in *. cbn [map length] in *. lia.
   Qed.
@@ -1057,9 +1041,10 @@ Section OverrideProofs.
     forall i, run_patch_vulns versions_of rank dif affected analyse cfg vuln_ids fuel <> OOutOfFuel i.
   Proof.
     intros fuel Hf i. unfold run_patch_vulns. apply patch_vulns_fuel.
-    - split; [constructor|]. split; [intros x []|intros p w []].
+    - split; [constructor|intros x []].
     - unfold fuel_bound in Hf. rewrite all_pairs_length. simpl. lia.
   Qed.
+
   (* ---- within the level, measured from the version the package had originally *)
   Variable comp : ver -> comps.
   Hypothesis H_fc : forall a b, first_component_diffb (comp a) (comp b) (dif a b) = true.
@@ -1114,7 +1099,7 @@ Section OverrideProofs.
     - destruct (iteration_patch _ _ _ HI Hq) as [_ [_ [_ [vulns [rv [c [EA [R1 R2]]]]]]]].
       destruct (iteration_inv _ _ HI) as [vulns' [gs [EA' [_ [E' _]]]]].
       assert (Hal : allows (config_get cfg (p_pkg q)) (dif (p_from q) (p_to q)) = true).
-      { subst ps. apply filter_some_In in Hq as [g [Hg F]]. destruct (patch_group_inv _ _ F) as [E1 [E2 [_ [A _]]]].
+      { subst ps. apply patch_groups_In in Hq as [g [iss' [Hg [F _]]]]. destruct (patch_group_inv _ _ _ F) as [E1 [E2 [_ [A _]]]].
         unfold p_pkg, p_from, p_to. rewrite E1, E2. exact A. }
       destruct (orig_of hist (p_pkg q)) as [o'|] eqn:E.
       + (* the package was overridden before: it now sits at the last override, by the resolver premise *)
